@@ -212,9 +212,10 @@ def native_law(uq, qtyping, law, cfg, model):
         zp, scale = uq.tensor_zp_scale_from_min_max(np.array([a], np.float32), np.array([b], np.float32), bits, sym)
         p = qtyping.UniformQuantParams(num_bits=bits, quantized_dimension=None, scale=scale, zero_point=zp, symmetric=sym)
         s = float(scale[0]); z = int(zp[0])
+        ftol = 8 * float(np.finfo(np.float32).eps) * max(abs(float(a)), abs(float(b)), (qmax - lo) * s)          # the real code computes in binary32: its rounding is not a violation of a law stated over the reals
         inputs = dict(min=float(a), max=float(b), num_bits=bits, symmetric=sym, zero_point=z, scale=s)
         if law == 'params':
-            ok = s > 0 and np.isfinite(s) and qmin <= z <= qmax and (z == 0 or not sym) and (lo - z) * s <= float(a) + s / 2 + 1e-6 * s and (qmax - z) * s >= float(b) - s / 2 - 1e-6 * s \
+            ok = s > 0 and np.isfinite(s) and qmin <= z <= qmax and (z == 0 or not sym) and (lo - z) * s <= float(a) + s / 2 + 1e-6 * s + ftol and (qmax - z) * s >= float(b) - s / 2 - 1e-6 * s - ftol \
                  and float(uq.uniform_dequantize(np.array([z], zp.dtype), p)[0]) == 0.0
             if not ok: return dict(confirmed=True, inputs=inputs, observed='parameter law violated')
         if law in ('codes', 'roundtrip', 'quantize', 'monotone'):
@@ -248,7 +249,7 @@ def native_law(uq, qtyping, law, cfg, model):
             if law == 'roundtrip':
                 back = uq.uniform_dequantize(qx, p); errs = np.abs(back.astype(np.float64) - xs.astype(np.float64))
                 k = int(np.argmax(errs))
-                if errs[k] > s / 2 * (1 + 1e-3) + 1e-12:
+                if errs[k] > s / 2 * (1 + 1e-3) + 1e-12 + ftol:
                     return dict(confirmed=True, inputs=dict(inputs, x=float(xs[k])), observed=dict(quantized=int(qx[k]), dequantized=float(back[k]), error=float(errs[k]), half_step=s / 2))
     return dict(confirmed=False, inputs=dict(model=model), observed='the counter-model did not reproduce natively')
 
